@@ -136,7 +136,7 @@ impl Prop for C17 {
          plus seeded texts: 70% mostly-valid keyrings (shuffled fields, dropped/doubled fields, fresh checksummed keys, Unicode whitespace, CR/LF mixes, TABs) and 30% token soup; \
          observable = accept/reject + entry list (Debug output of Keyring, canonicalised) and get_key / get_name_from_key on every name and key; \
          names: valid_key_name vs model and write-then-parse round trip through serialize_key for every name key generation accepts; \
-         public keys: encode/decode round trip and every single-character corruption of an encoded key. non-trivial = distinct text / name / corruption; accepted fraction reported".into()
+         three- and four-section keyrings with a repeated name or key at every pair of positions; lookups with near-miss names and keys; public keys: encode/decode round trip, every single-character corruption of an encoded key, and blobs of every length 0..60 (key ‖ hash prefix, with and without a flipped bit). non-trivial = distinct text / name / corruption; accepted fraction reported".into()
     }
     fn cases(&self, tier: &str, seed: u64) -> Vec<Case> {
         let th = tier == "thorough";
@@ -148,6 +148,10 @@ impl Prop for C17 {
         for _ in 0..=maxlen { total += p; p *= toks; }
         for idx in 0..total { v.push(case(&[("kind", "seq".into()), ("idx", idx.to_string())])); }
         for _ in 0..(if th { 20000 } else { 3000 }) { v.push(case(&[("kind", "text".into()), ("seed", rng.next().to_string())])); }
+        // three and four sections with a repeated name or key at every pair of positions
+        for n in [3usize, 4] { for i in 0..n { for j in i + 1..n { for what in ["name", "pk"] { v.push(case(&[("kind", "dup".into()), ("n", n.to_string()), ("i", i.to_string()), ("j", j.to_string()), ("what", what.into())])); } } } }
+        for _ in 0..(if th { 300 } else { 40 }) { v.push(case(&[("kind", "lookup".into()), ("seed", rng.next().to_string())])); }
+        for l in 0..=60usize { for var in 0..(if th { 6 } else { 2 }) { v.push(case(&[("kind", "pklen".into()), ("len", l.to_string()), ("var", var.to_string()), ("seed", rng.next().to_string())])); } }
         for (i, _) in NAMES.iter().enumerate() { v.push(case(&[("kind", "name".into()), ("ni", i.to_string())])); }
         for extra in ["x128", "x129", "e64", "e65", "tabend", "nl", "crlf", "sp", "eq", "u2028"] { v.push(case(&[("kind", "name".into()), ("ni", extra.into())])); }
         for _ in 0..(if th { 300 } else { 40 }) { v.push(case(&[("kind", "name".into()), ("ni", "rand".into()), ("seed", rng.next().to_string())])); }
@@ -195,6 +199,53 @@ impl Prop for C17 {
                     }
                     if entries.is_empty() { o.oracle_fail = Some(("non-empty".into(), "accepted a keyring without entries".into())); }
                 }
+            }
+            "dup" => {
+                let n = getn(c, "n"); let (i, j) = (getn(c, "i"), getn(c, "j")); let what = get(c, "what");
+                let mut names: Vec<String> = (0..n).map(|k| format!("entry {}", k)).collect();
+                let mut pks: Vec<String> = (0..n).map(|k| enc_pk(&[k as u8 + 1; 32])).collect();
+                if what == "name" { names[j] = names[i].clone(); } else { pks[j] = pks[i].clone(); }
+                let text: String = (0..n).map(|k| format!("[Key]\nName = {}\nPublicKey = {}\n\n", names[k], pks[k])).collect();
+                let r = rust_parse(&text); let mr = m.ask(&format!("parse_keyring {}", hexd(text.as_bytes()))); o.validated += 1;
+                o.impl_obs = r.chars().take(40).collect(); o.model_obs = mr.chars().take(40).collect();
+                o.nontrivial = Some(format!("dup/{}/{}/{}/{}", n, i, j, what)); o.tags.push(format!("dup {} -> {}", what, if r.starts_with("ok") { "accepted" } else { "rejected" }));
+                if r.starts_with("ok") { o.oracle_fail = Some((format!("no-{}-occurs-twice", what), format!("a keyring of {} sections in which sections {} and {} have the same {} is accepted", n, i + 1, j + 1, if what == "pk" { "public key" } else { "name" }))); }
+                else if r != mr { o.disagreement = Some(format!("impl {} model {}", r, mr)); }
+            }
+            "lookup" => {
+                // lookups answer only on exact equality: probe an accepted keyring with near misses of its names and keys
+                let mut rng = Rng::new(get(c, "seed").parse().unwrap_or(0));
+                let names = ["alice", "Bob B", "carol"]; let pks: Vec<String> = (0..3).map(|_| enc_pk(&rng.bytes(32))).collect();
+                let text: String = (0..3).map(|k| format!("[Key]\nName = {}\nPublicKey = {}\n", names[k], pks[k])).collect();
+                let kr = Keyring::new(&text).expect("accepted");
+                o.nontrivial = Some(format!("lookup/{}", get(c, "seed"))); o.tags.push("lookup near-miss".into()); o.validated += 1;
+                for probe in ["Alice", "alice ", " alice", "alic", "alicee", "ecila", "bob b", "Bob  B", "carol\t", ""] { if kr.get_key(probe).is_some() { o.oracle_fail = Some(("lookup-by-name-exact".into(), format!("get_key({:?}) finds an entry although no entry has that name", probe))); return o; } }
+                let a: Vec<char> = pks[0].chars().collect();
+                let mut probes: Vec<String> = vec![];
+                for _ in 0..8 { let (i, j) = (rng.below(48), rng.below(48)); if a[i] != a[j] { let mut b = a.clone(); b.swap(i, j); probes.push(b.into_iter().collect()); } }
+                { let mut b = a.clone(); b.reverse(); probes.push(b.into_iter().collect()); } { let mut b = a.clone(); b.sort(); probes.push(b.into_iter().collect()); }
+                probes.push(enc_pk(&rng.bytes(32)));
+                probes.push(a.iter().zip(pks[1].chars()).enumerate().map(|(i, (x, y))| if i % 2 == 0 { *x } else { y }).collect());
+                for pr in probes { if pks.contains(&pr) { continue; } if let Ok(e) = EncodedPk::try_from(pr.as_str()) { if let Some(n) = kr.get_name_from_key(&e) { o.oracle_fail = Some(("lookup-by-key-exact".into(), format!("get_name_from_key finds {:?} for the key string {} which no entry has", n, pr))); return o; } } }
+                for k in 0..3 { if kr.get_key(names[k]).map(|x| x.public_key.as_str().to_string()) != Some(pks[k].clone()) || kr.get_name_from_key(&EncodedPk::try_from(pks[k].as_str()).unwrap()).as_deref() != Some(names[k]) { o.oracle_fail = Some(("lookup-finds-entry".into(), format!("entry {} is not found by its own name / key", k))); return o; } }
+                o.impl_obs = "near-miss names and keys find nothing; exact ones find their entry".into();
+            }
+            "pklen" => {
+                // an encoded public key is usable only as 32 key bytes + the 4 matching checksum bytes: blobs of every other length must be unusable
+                let mut rng = Rng::new(get(c, "seed").parse().unwrap_or(0));
+                let len = getn(c, "len");
+                let key = rng.bytes(32); let ck = kestrel_crypto::sha256(&key);
+                let mut blob: Vec<u8> = key.clone(); blob.extend_from_slice(&ck);          // key || full hash: every prefix >= 32 "has a right checksum prefix"
+                blob.truncate(len.min(blob.len())); while blob.len() < len { blob.push(rng.next() as u8); }
+                if getn(c, "var") % 2 == 1 && len > 0 { let i = rng.below(len); blob[i] ^= 1 << rng.below(8); }
+                let sstr = Base64::encode_to_string(&blob).unwrap();
+                let r = catch_unwind(AssertUnwindSafe(|| match EncodedPk::try_from(sstr.as_str()) { Err(_) => "err pkformat".to_string(), Ok(e) => match Keyring::decode_public_key(&e) { Ok(k) => format!("ok {}", hex(k.as_bytes())), Err(e) => format!("err {}", crate::props::c09::kr_class(&e)) } })).unwrap_or("crash".into());
+                let mr = m.ask(&format!("decode_pk {}", hexd(sstr.as_bytes()))); o.validated += 1;
+                o.impl_obs = r.clone(); o.model_obs = mr.clone(); o.nontrivial = Some(format!("pklen/{}/{}", len, getn(c, "var"))); o.tags.push(format!("pklen -> {}", r.split(' ').take(2).collect::<Vec<_>>().join(" ").chars().take(16).collect::<String>()));
+                let well_formed = blob.len() == 36 && blob[32..] == ck[..4];
+                if r.starts_with("ok") && !well_formed { o.oracle_fail = Some(("usable-only-with-matching-4-byte-checksum".into(), format!("a {}-byte blob ({}) is accepted as a usable public key", blob.len(), sstr))); }
+                else if r == "crash" { o.oracle_fail = Some(("no-panic".into(), format!("decoding {:?} panicked", sstr))); }
+                else if r.starts_with("ok") != mr.starts_with("ok") { o.disagreement = Some(format!("impl {} model {}", r, mr)); }
             }
             "name" => {
                 let ni = get(c, "ni");
